@@ -2,11 +2,14 @@
 import MelModel.ApplyTx
 import MelModel.Lemmas.Counts
 namespace Mel
+-- declarations whose names also occur in other lemma/property files live in `Mel.BatchL`
+namespace BatchL namespace Outcome end Outcome end BatchL
+open BatchL BatchL.Outcome
 
 /-! ### Outcome combinators -/
 namespace Outcome
 
-theorem bind_eq_ok {α β} {x : Outcome α} {f : α → Outcome β} {r : β} :
+theorem _root_.Mel.BatchL.Outcome.bind_eq_ok {α β} {x : Outcome α} {f : α → Outcome β} {r : β} :
     x.bind f = .ok r ↔ ∃ a, x = .ok a ∧ f a = .ok r := by
   cases x <;> simp [bind]
 
@@ -368,7 +371,7 @@ def faucetMarker : CoinDataHeight :=
 /-- does this transaction insert a faucet de-duplication marker? -/
 def insertsMarker (env : Env) (tx : Tx) : Bool := tx.kind = .faucet && !env.isGrandfathered tx.hash
 
-def markerOf (env : Env) (tx : Tx) : CoinID := { txhash := env.fdp tx.hash, index := 0 }
+def BatchL.markerOf (env : Env) (tx : Tx) : CoinID := { txhash := env.fdp tx.hash, index := 0 }
 
 def markerIdsOf (env : Env) (txs : List Tx) : List CoinID :=
   (txs.filter fun tx => tx.kind = .faucet && !env.isGrandfathered tx.hash).map
